@@ -4315,7 +4315,7 @@ void SoPlexBase<R>::_untransformUnbounded(SolRational& sol, bool unbounded)
       sol.invalidate();
       _hasBasis = false;
       _basisStatusCols.reSize(numOrigCols);
-      _basisStatusCols.reSize(numOrigRows);
+      _basisStatusRows.reSize(numOrigRows);
    }
 
    // recover objective function
